@@ -35,7 +35,7 @@ CHECKS = {
    design="4 C08"),
  "C12": dict(
    category="exploration",
-   text="Generated include graphs on a simulated directory tree (resolution policies, aliases, same name in two directories, #pragma once anywhere incl. inside conditional regions, guards, cycles, conditional regions spanning files, hundreds of repeated includes, load faults) carrying object-like and function-like macros (0-3 parameters, nested invocations, parenthesised arguments with commas, empty arguments, wrong arity, self and mutual reference (also through arguments), bare function-like names as arguments, bodies made of parameters only, invocations spanning lines, redefinition between kinds, #undef across files, the ## paste macro incl. pastes of two literals and pastes that spell keywords) are preprocessed by rssl and by an independent reference model of textual inclusion + C macro replacement that resolves through the same simulated file system; token streams must be equal (refinement), the handler's request history must be justified by the model (no invented request, no silently skipped first request, correct parent name, nothing after an error), compile() must accept exactly the pasted programs that are valid, API-level defines must equal #define lines placed before the first line, and a whole generated program (functions, overloads, templates, resources, pipelines) must compile to the same sources and metadata as one file and cut at top-level line boundaries into files that include one another (with #pragma once parts included again).",
+   text="Generated include graphs on a simulated directory tree (resolution policies, aliases, same name in two directories, #pragma once anywhere incl. inside conditional regions, guards, cycles, conditional regions spanning files, hundreds of repeated includes, load faults) carrying object-like and function-like macros (0-3 parameters, nested invocations, parenthesised arguments with commas, empty arguments, wrong arity, self and mutual reference (also through arguments), bare function-like names as arguments, bodies made of parameters only, invocations spanning lines, redefinition between kinds, #undef across files, the ## paste macro incl. pastes of two literals and pastes that spell keywords) are preprocessed by rssl and by an independent reference model of textual inclusion + C macro replacement that resolves through the same simulated file system; token streams must be equal (refinement), the handler's request history must be justified by the model (no invented request, no silently skipped first request, correct parent name, nothing after an error), compile() must accept exactly the pasted programs that are valid, API-level defines must equal #define lines placed before the first line, and a whole generated program (functions, overloads, templates, resources, pipelines) must compile to the same sources and metadata as one file, cut at top-level line boundaries into files that include one another (with #pragma once parts included again), and with one to four of its words replaced everywhere by object-like macros.",
    note="The model answers 'unmodelled' (counted in evidence, never judged) where C and RSSL are known to differ or C leaves the result open: the DR 268 cases around a replacement that ends in a function-like macro name followed by '(', a line break between such a name and '(', ## with macro-name operands, #elif after #else, stringification, arithmetic in #if. Duplicate API-level define names are not generated. Plain (flat names) and hostile (aliases, faults) configurations are judged and reported separately.",
    technique="deterministic simulation: compiler <-> include-handler protocol on a simulated file system with fault injection, refinement against an executable reference model of textual inclusion and macro replacement",
    design="4 C12"),
